@@ -654,6 +654,11 @@ def run(ctx):
                           % (b.id, F.fmt_expr(a), F.fmt_expr(ln)), site=b.where(bi))
     ctx.floor("C17-R7", "(pointer, length) pairs passed to C callbacks", n_out, 2)
 
+    # ------------------------------------------------------------------ R8 the engine mask holds only real token ids
+    # (what is copied into the caller's buffer is the engine's own mask: the trie walk's scratch slot at index vocab_size must
+    # be cleared on every path, and the set must be allocated with that spare slot — decided by C16-R1, adopted here)
+    ctx.import_clauses("c16", "C16-R1", ["add_bias:", "alloc_token_set:", "alloc_with_capacity:"], "C17-R8")
+
     # ------------------------------------------------------------------ R5 wrapper correspondence
     CORR = {
         "llg_matcher_consume_token": ["Matcher::consume_token"], "llg_matcher_consume_tokens": ["Matcher::consume_tokens"],
